@@ -56,12 +56,15 @@ def body(ck):
     cases, cj = [], []
     cb = CallbackList(callbacks=[])
     env = TimeLimit(CartPole(), 20)
-    dq_cfgs = [(2, 1), (3, 2)] if quick else [(1, 1), (2, 1), (3, 2), (4, 1), (7, 2), (2, 2)]
-    for interval, N in dq_cfgs:
+    # (interval, num_envs, learning_starts, batch_size): the last configurations start training on a replay buffer that holds FEWER
+    # transitions than one batch (tiny warm-up, large batch): every iteration still counts
+    dq_cfgs = ([(2, 1, 8, 4), (3, 2, 8, 4), (2, 1, 1, 32)] if quick else
+               [(1, 1, 8, 4), (2, 1, 8, 4), (3, 2, 8, 4), (4, 1, 8, 4), (7, 2, 8, 4), (2, 2, 8, 4), (2, 1, 1, 32), (3, 2, 0, 48)])
+    for interval, N, L, BS in dq_cfgs:
         K = int(rng.integers(6, 10))
-        algo = DQN(buffer_size=64 * N, learning_starts=8, num_envs=N, num_steps=2, batch_size=4, target_update_interval=interval, learning_rate=1e-2)
+        algo = DQN(buffer_size=64 * N, learning_starts=L, num_envs=N, num_steps=2, batch_size=BS, target_update_interval=interval, learning_rate=1e-2)
         pol = MLPQPolicy(env=env, key=jr.key(int(rng.integers(0, 1000))), width_size=8, depth=1)
-        ck.current_case = {"algo": "DQN", "interval": interval, "N": N, "K": K}
+        ck.current_case = {"algo": "DQN", "interval": interval, "N": N, "K": K, "learning_starts": L, "batch_size": BS}
         st = algo.reset(env, pol, key=jr.key(1), callback=cb)
         it = eqx.filter_jit(lambda s, k: algo.iteration(s, key=k, callback=cb))
         obs = []
@@ -70,9 +73,9 @@ def body(ck):
             st = it(st, jr.key(100 + k))
             obs.append((int(st.iteration_count), same(st.target_policy, st.policy), same(st.target_policy, prev_target)))
         lit = f"CDqn {interval}%nat {listl('(' + zl(c) + ', ' + bl(a) + ', ' + bl(b) + ')' for c, a, b in obs)}"
-        j = {"algo": "DQN", "target_update_interval": interval, "num_envs": N, "iterations": K, "impl[count,target==online,target==previous target]": obs}
+        j = {"algo": "DQN", "target_update_interval": interval, "num_envs": N, "learning_starts": L, "batch_size": BS, "iterations": K, "impl[count,target==online,target==previous target]": obs}
         cases.append(lit); cj.append(j)
-        ck.case_seen(("dqn", interval, N, K) if (interval > 1 and K >= interval) else None, sample=j); ck.count("dqn_runs"); ck.count("dqn_iterations", K)
+        ck.case_seen(("dqn", interval, N, K, L, BS) if (interval > 1 and K >= interval) else None, sample=j); ck.count("dqn_runs"); ck.count("dqn_iterations", K)
     penv = TimeLimit(Pendulum(), 20)
     # num_steps > 1 with a common factor with policy_frequency matters: the gate must count iterations, not environment steps
     # fixed temperatures far from the default (1e-6, 20): with autotuning off the stored temperature must not move at all
